@@ -109,6 +109,11 @@ def run(ctx, selftest=False):
     ctx.assumptions = ["TLC/SANY/CommunityModules", "numpy arange/slicing", "JSON transport of integers < 2^31"]
     # 1. design level: the algorithm refines the property (exhaustive)
     ctx.model_check("PartitionAlg", "MC_PartitionAlg.cfg" if quick else "MC_PartitionAlg_thorough.cfg", coverage=True)
+    # what the monitor checks implies what the property promises, for EVERY n, start index and task list (TLC: small ones only)
+    # (tlapm cannot read Partition.tla - it has a RECURSIVE operator - so the proof module repeats the definition: same text or no proof)
+    if core.definition_text("Partition", "IsValidPartition") != core.definition_text("PartitionProof", "IsValidPartition") or not core.definition_text("Partition", "IsValidPartition"):
+        raise core.MachineryError("PartitionProof.tla proves a different IsValidPartition than the one Partition.tla defines")
+    ctx.prove("PartitionProof", "IsValidPartition => every requested row is in exactly one task and nothing else is, for all n")
     # 2. spec -> code: every behaviour TLC enumerates is replayed
     r = ctx.model_check("PartitionAlg", "MC_PartitionAlg_export.cfg", workers=1)
     cases = []
